@@ -139,6 +139,7 @@ type ChanContent struct {
 	Count  smt.Term // BV32
 	Slots  []Value  // len == Cap (element values; zero when unused)
 	Closed smt.Term
+	Refill int // ticker model: number of further ticks that appear after a receive
 }
 
 // ---------------------------------------------------------------------------------------------
